@@ -1,6 +1,7 @@
 package main
 
 import (
+	"math/rand"
 	"strings"
 	"time"
 
@@ -36,10 +37,9 @@ var stdOpts = []cat.Opts{{Recover: true}, {Recover: false}, {Recover: true, Defe
 var allOpts = []cat.Opts{{Recover: true}, {Recover: false}, {Recover: true, Defer: true}, {Recover: true, Dry: true}}
 
 type coverPlan struct {
-	name     string
-	features fam.Features
-	n        int
-	bounds   Bounds
+	name   string
+	bounds Bounds
+	cats   func(seed int64, tier string) []*cat.Catalog
 }
 
 type tracePlan struct {
@@ -51,23 +51,39 @@ type tracePlan struct {
 	opts     []cat.Opts
 }
 
-// genericRun runs the cover plans and the trace plans of a property.
-func genericRun(covers func(tier string) []coverPlan, traces func(tier string) []tracePlan) func(rep *Report, def *propDef) {
+type stagePlan struct {
+	covers []coverPlan
+	traces func(tier string) []tracePlan
+	sig    bool // run the front-end stage (Sig.tla)
+	extra  func(rep *Report, def *propDef)
+}
+
+// genericRun runs the stages of a property.
+func genericRun(sp stagePlan) func(rep *Report, def *propDef) {
 	return func(rep *Report, def *propDef) {
 		budget := 8 * time.Minute
 		if rep.Tier == "thorough" {
-			budget = 40 * time.Minute
+			budget = 60 * time.Minute
 		}
-		for i, cp := range covers(rep.Tier) {
-			cats := fam.RandomFamily(rep.Seed*7919+int64(i), cp.n, cp.features)
-			st, err := coverStage(cp.name, cats, cp.bounds, budget, 40)
+		for i, cp := range sp.covers {
+			cats := cp.cats(rep.Seed*7919+int64(i), rep.Tier)
+			st, err := coverStage(cp.name, cats, cp.bounds, budget, 4)
 			rep.takeCover(def, st, cats, err)
 		}
-		for i, tp := range traces(rep.Tier) {
-			cfg := TraceSpecCfg{Name: tp.name, Seed: rep.Seed*104729 + int64(i), Containers: tp.n, Features: tp.features,
-				Driver: run.DriverOpts{MaxOps: tp.ops, PFault: tp.pfault, PInvoke: 0.3}, Opts: tp.opts}
-			st, err := traceStage(cfg, budget, 40)
-			rep.takeTrace(def, st, cfg, err)
+		if sp.traces != nil {
+			for i, tp := range sp.traces(rep.Tier) {
+				cfg := TraceSpecCfg{Name: tp.name, Seed: rep.Seed*104729 + int64(i), Containers: tp.n, Features: tp.features,
+					Driver: run.DriverOpts{MaxOps: tp.ops, PFault: tp.pfault, PInvoke: 0.3}, Opts: tp.opts}
+				st, err := traceStage(cfg, budget, 4)
+				rep.takeTrace(def, st, cfg, err)
+			}
+		}
+		if sp.sig {
+			st, err := sigStage(budget, 6)
+			rep.takeSig(def, st, err)
+		}
+		if sp.extra != nil {
+			sp.extra(rep, def)
 		}
 	}
 }
@@ -86,18 +102,55 @@ func scale(tier string, q, t int) int {
 	return q
 }
 
-func stdCovers(name string, ft fam.Features, faults int) func(string) []coverPlan {
-	return func(tier string) []coverPlan {
-		return []coverPlan{
-			{name + "-small", withOpts(ft, stdOpts), scale(tier, 60, 400), Bounds{MaxInv: 2, MaxFaults: faults, FaultKinds: errKinds}},
-		}
-	}
+// randCover: q (quick) or t (thorough) random catalogs of the given features.
+func randCover(name string, ft fam.Features, opts []cat.Opts, q, t, faults int) coverPlan {
+	return coverPlan{name: name, bounds: Bounds{MaxInv: 2, MaxFaults: faults, FaultKinds: errKinds},
+		cats: func(seed int64, tier string) []*cat.Catalog {
+			return fam.RandomFamily(seed, scale(tier, q, t), withOpts(ft, opts))
+		}}
+}
+
+// structCover: a structured family, sampled down to q catalogs in the quick tier (t in the
+// thorough tier; 0 = the whole family).
+func structCover(name string, gen func(opts []cat.Opts, cb bool) []*cat.Catalog, opts []cat.Opts, cb bool, q, t, inv, faults int) coverPlan {
+	return coverPlan{name: name, bounds: Bounds{MaxInv: inv, MaxFaults: faults, FaultKinds: errKinds},
+		cats: func(seed int64, tier string) []*cat.Catalog {
+			return fam.Sample(gen(opts, cb), seed, scale(tier, q, t))
+		}}
+}
+
+// digraphCover: the cycle family: digraphs on 3 constructors over a chain or fan tree.
+func digraphCover(name string, kind string, opts []cat.Opts, q, t int) coverPlan {
+	return coverPlan{name: name, bounds: Bounds{MaxInv: 1, MaxFaults: 0, FaultKinds: errKinds},
+		cats: func(seed int64, tier string) []*cat.Catalog {
+			r := rand.New(rand.NewSource(seed))
+			k := scale(tier, q, t)
+			var idx []int
+			for i := 0; i < k; i++ {
+				idx = append(idx, r.Intn(512))
+			}
+			pl := make(map[int][]int)
+			scopes := []string{"r", "a", "b"}
+			tree := map[string]string{"r": "", "a": "r", "b": "a"}
+			if r.Intn(3) == 0 {
+				tree = map[string]string{"r": "", "a": "r", "b": "r"}
+			}
+			placement := func(g, i int) fam.Place {
+				if _, ok := pl[g]; !ok {
+					pl[g] = []int{r.Intn(3), r.Intn(3), r.Intn(3), r.Intn(4), r.Intn(4), r.Intn(4)}
+				}
+				s := scopes[pl[g][i]]
+				return fam.Place{Scope: s, Exp: s != "r" && pl[g][3+i] == 0}
+			}
+			return fam.Digraphs(3, idx, placement, kind, opts, tree)
+		}}
 }
 
 func stdTraces(name string, ft fam.Features, pfault float64, opts []cat.Opts) func(string) []tracePlan {
 	return func(tier string) []tracePlan {
 		return []tracePlan{
-			{name + "-medium", ft, scale(tier, 60, 600), 40, pfault, opts},
+			{name + "-medium", ft, scale(tier, 60, 500), 40, pfault, opts},
+			{name + "-large", fam.Presets["large"], scale(tier, 5, 120), 70, pfault, opts},
 		}
 	}
 }
@@ -121,14 +174,24 @@ func init() {
 	nogroups := func(f *fam.Features) { f.PGroup = 0.05; f.PGroupDec = 0 }
 	groupy := func(f *fam.Features) { f.PGroup = 0.55; f.PSoft = 0.35; f.PFlat = 0.4; f.Types = 2 }
 	decy := func(f *fam.Features) { f.Decs = 2; f.PGroupDec = 0.4; f.Types = 2; f.PNamed = 0.05 }
+	rec := []cat.Opts{{Recover: true}}
+	recBoth := []cat.Opts{{Recover: true}, {Recover: false}}
+	deferBoth := []cat.Opts{{Recover: true}, {Recover: true, Defer: true}}
+	dryOpts := []cat.Opts{{Recover: true, Dry: true}, {Recover: true, Dry: true, Defer: true}}
 
 	register(&propDef{id: "C01",
 		projection: "argument provenance of every executed user function (single, optional and group parameters), verdict of Invokes the specification says succeed, number of executions of the invoked function",
-		kinds:      []string{"args", "exec.depsfirst", "foreignpanic"},
+		kinds:      []string{"args", "exec.depsfirst"},
 		extra: func(k, d string) bool {
 			return (k == "verdict.invoke" && contains(d, "want ok")) || ((k == "exec.extra" || k == "exec.missing") && contains(d, ": i"))
 		},
-		run: genericRun(stdCovers("core", tweak(small, nogroups), 0), stdTraces("core", medium, 0, stdOpts))})
+		run: genericRun(stagePlan{
+			covers: []coverPlan{
+				randCover("core", tweak(small, nogroups), recBoth, 60, 500, 1),
+				structCover("chain", fam.Chain, recBoth, false, 40, 0, 2, 1),
+				structCover("shadow", fam.Shadow, rec, false, 40, 0, 2, 0),
+			},
+			traces: stdTraces("core", medium, 0.05, stdOpts)})})
 
 	register(&propDef{id: "C02",
 		projection: "multiset of executions per function over the whole history, execution number carried by every received value, called markers",
@@ -136,12 +199,24 @@ func init() {
 		extra: func(k, d string) bool {
 			return strings.HasPrefix(k, "args.") && !contains(d, "zero")
 		},
-		run: genericRun(stdCovers("once", small, 1), stdTraces("once", medium, 0.1, stdOpts))})
+		run: genericRun(stagePlan{
+			covers: []coverPlan{
+				randCover("once", small, recBoth, 60, 500, 1),
+				structCover("chain", fam.Chain, recBoth, false, 30, 0, 2, 1),
+				structCover("groups", fam.Groups, rec, false, 12, 0, 2, 1),
+			},
+			traces: stdTraces("once", medium, 0.1, stdOpts)})})
 
 	register(&propDef{id: "C03",
 		projection: "set of user functions executed per API call (nothing during Provide/Decorate/Scope/Visualize/String; only the closure during Invoke; whole closure on success) and dependency-before-consumer order",
 		kinds:      []string{"exec.extra", "exec.missing", "exec.inreg", "exec.depsfirst", "viz.misbehaved"},
-		run:        genericRun(stdCovers("lazy", small, 0), stdTraces("lazy", medium, 0, stdOpts))})
+		run: genericRun(stagePlan{
+			covers: []coverPlan{
+				randCover("lazy", small, rec, 60, 500, 0),
+				structCover("chain", fam.Chain, rec, false, 80, 0, 2, 0),
+				structCover("groups", fam.Groups, rec, false, 20, 0, 2, 0),
+			},
+			traces: stdTraces("lazy", medium, 0, stdOpts)})})
 
 	register(&propDef{id: "C04",
 		projection: "verdict class of Invoke (missing versus ok), the reported missing keys, zero versus value for optional parameters, executions past a known gap",
@@ -149,8 +224,12 @@ func init() {
 		extra: func(k, d string) bool {
 			return (k == "verdict.invoke" && contains(d, "missing", "want ok")) || (k == "exec.extra")
 		},
-		run: genericRun(stdCovers("missing", tweak(small, func(f *fam.Features) { f.POpt = 0.45; f.Ctors = 3; f.Types = 4; f.PGroup = 0.1 }), 1),
-			stdTraces("missing", tweak(medium, func(f *fam.Features) { f.POpt = 0.4; f.Types = 6 }), 0.1, stdOpts))})
+		run: genericRun(stagePlan{
+			covers: []coverPlan{
+				randCover("missing", tweak(small, func(f *fam.Features) { f.POpt = 0.45; f.Ctors = 3; f.Types = 4; f.PGroup = 0.1 }), recBoth, 60, 500, 1),
+				structCover("chain", fam.Chain, rec, false, 50, 0, 2, 1),
+			},
+			traces: stdTraces("missing", tweak(medium, func(f *fam.Features) { f.POpt = 0.4; f.Types = 6 }), 0.1, stdOpts)})})
 
 	register(&propDef{id: "C05",
 		projection: "cycle verdicts of Provide and Invoke (three zones), IsCycleDetected, process survival, executions on a cycle",
@@ -158,32 +237,49 @@ func init() {
 		extra: func(k, d string) bool {
 			return strings.HasPrefix(k, "verdict.") && contains(d, "cycle")
 		},
-		run: genericRun(stdCovers("cycle", tweak(small, func(f *fam.Features) {
-			f.Types = 2
-			f.PNamed = 0
-			f.MaxParams = 2
-			f.Ctors = 4
-			f.Decs = 1
-			f.PAs = 0
-		}), 0),
-			stdTraces("cycle", tweak(medium, func(f *fam.Features) { f.Types = 3; f.PNamed = 0.05 }), 0, allOpts))})
+		run: genericRun(stagePlan{
+			covers: []coverPlan{
+				digraphCover("digraphs-req", "req", deferBoth, 120, 2500),
+				digraphCover("digraphs-opt", "opt", deferBoth, 50, 1200),
+				digraphCover("digraphs-grp", "grp", deferBoth, 60, 1500),
+				randCover("cycle", tweak(small, func(f *fam.Features) {
+					f.Types = 2
+					f.PNamed = 0
+					f.MaxParams = 2
+					f.Ctors = 4
+					f.Decs = 1
+					f.PAs = 0
+				}), deferBoth, 30, 400, 0),
+				structCover("chain", fam.Chain, deferBoth, false, 20, 0, 2, 1),
+			},
+			traces: stdTraces("cycle", tweak(medium, func(f *fam.Features) { f.Types = 3; f.PNamed = 0.05 }), 0.05, allOpts)})})
 
 	register(&propDef{id: "C06",
 		projection: "state before/after a rejected Provide or Decorate (real versus real), model state after it, and every later observation of the history",
-		kinds:      []string{"notrace", "snap.reg", "snap.decs", "snap.foreign", "info.onreject", "crash"},
-		extra: func(k, d string) bool {
-			return (strings.HasPrefix(k, "verdict.provide") || strings.HasPrefix(k, "verdict.decorate"))
-		},
-		run: genericRun(stdCovers("reject", tweak(small, func(f *fam.Features) { f.Types = 2; f.PNamed = 0.05; f.Ctors = 4; f.Decs = 2 }), 0),
-			stdTraces("reject", tweak(medium, func(f *fam.Features) { f.Types = 3 }), 0.05, stdOpts))})
+		kinds:      []string{"notrace", "snap.reg", "snap.decs", "snap.foreign", "info.onreject", "crash", "verdict", "exec.extra", "exec.inreg", "viz.misbehaved"},
+		run: genericRun(stagePlan{
+			covers: []coverPlan{
+				randCover("reject", tweak(small, func(f *fam.Features) { f.Types = 2; f.PNamed = 0.05; f.Ctors = 4; f.Decs = 2 }), rec, 60, 400, 0),
+				digraphCover("digraphs-req", "req", rec, 100, 1500),
+				digraphCover("digraphs-grp", "grp", rec, 50, 800),
+				structCover("shadow", fam.Shadow, rec, false, 60, 0, 2, 0),
+			},
+			traces: stdTraces("reject", tweak(medium, func(f *fam.Features) { f.Types = 3 }), 0.05, stdOpts),
+			sig:    true})})
 
 	register(&propDef{id: "C07",
 		projection: "argument provenance after failures (no value of a failed execution), execution counters (retry), root cause of the failing Invoke, called / decorator markers and caches after a failure",
-		kinds:      []string{"root", "snap.vals", "snap.dvals", "snap.grps", "snap.dgrps", "snap.called", "snap.dcalled", "exec.missing", "exec.extra", "args"},
+		kinds:      []string{"root", "snap.vals", "snap.dvals", "snap.grps", "snap.dgrps", "snap.called", "snap.dcalled", "snap.foreign", "exec.missing", "exec.extra", "args"},
 		extra: func(k, d string) bool {
-			return k == "verdict.invoke" && contains(d, "fail", "panic")
+			return k == "verdict.invoke" && contains(d, "fail", "panic", "invokeerr", "cycle")
 		},
-		run: genericRun(stdCovers("fault", small, 2), stdTraces("fault", medium, 0.25, stdOpts))})
+		run: genericRun(stagePlan{
+			covers: []coverPlan{
+				randCover("fault", small, recBoth, 40, 400, 2),
+				structCover("chain", fam.Chain, recBoth, true, 20, 0, 2, 2),
+				structCover("groups", fam.Groups, recBoth, false, 8, 0, 2, 1),
+			},
+			traces: stdTraces("fault", medium, 0.25, stdOpts)})})
 
 	register(&propDef{id: "C08",
 		projection: "verdict and argument provenance of Invokes from every scope, the scope component of cached entries",
@@ -191,8 +287,14 @@ func init() {
 		extra: func(k, d string) bool {
 			return (k == "verdict.invoke" && contains(d, "missing")) || (strings.HasPrefix(k, "verdict.provide") && contains(d, "want ok"))
 		},
-		run: genericRun(stdCovers("scopes", tweak(small, func(f *fam.Features) { f.Scopes = 3; f.Types = 2; f.PExport = 0.4; f.Decs = 0 }), 0),
-			stdTraces("scopes", tweak(medium, func(f *fam.Features) { f.Scopes = 4; f.PExport = 0.4 }), 0, stdOpts))})
+		run: genericRun(stagePlan{
+			covers: []coverPlan{
+				structCover("chain", fam.Chain, rec, false, 100, 0, 2, 0),
+				structCover("shadow", fam.Shadow, rec, false, 50, 0, 2, 0),
+				structCover("groups", fam.Groups, rec, false, 15, 0, 2, 0),
+				randCover("scopes", tweak(small, func(f *fam.Features) { f.Scopes = 3; f.Types = 2; f.PExport = 0.4; f.Decs = 0 }), rec, 40, 400, 0),
+			},
+			traces: stdTraces("scopes", tweak(medium, func(f *fam.Features) { f.Scopes = 4; f.PExport = 0.4 }), 0, stdOpts)})})
 
 	register(&propDef{id: "C09",
 		projection: "Provide verdicts (duplicate versus accepted), provenance received under each key, missing verdicts for keys that must not be satisfiable",
@@ -200,15 +302,19 @@ func init() {
 		extra: func(k, d string) bool {
 			return (strings.HasPrefix(k, "verdict.provide") && contains(d, "dup", "want ok")) || (k == "verdict.invoke" && contains(d, "missing"))
 		},
-		run: genericRun(stdCovers("keys", tweak(small, func(f *fam.Features) {
-			f.Types = 2
-			f.PNamed = 0.4
-			f.PAs = 0.35
-			f.PGroup = 0.3
-			f.Ctors = 4
-			f.Decs = 0
-		}), 0),
-			stdTraces("keys", tweak(medium, func(f *fam.Features) { f.Types = 3; f.PNamed = 0.4; f.PAs = 0.3 }), 0, stdOpts))})
+		run: genericRun(stagePlan{
+			covers: []coverPlan{
+				randCover("keys", tweak(small, func(f *fam.Features) {
+					f.Types = 2
+					f.PNamed = 0.4
+					f.PAs = 0.35
+					f.PGroup = 0.3
+					f.Ctors = 4
+					f.Decs = 0
+				}), rec, 120, 800, 0),
+			},
+			traces: stdTraces("keys", tweak(medium, func(f *fam.Features) { f.Types = 3; f.PNamed = 0.4; f.PAs = 0.3 }), 0, stdOpts),
+			sig:    true})})
 
 	register(&propDef{id: "C10",
 		projection: "bag of provenance of every hard group slice, execution counters of feeders",
@@ -216,13 +322,22 @@ func init() {
 		extra: func(k, d string) bool {
 			return k == "exec.extra" || k == "exec.missing"
 		},
-		run: genericRun(stdCovers("groups", tweak(small, groupy), 0), stdTraces("groups", tweak(medium, groupy), 0, stdOpts))})
+		run: genericRun(stagePlan{
+			covers: []coverPlan{
+				structCover("groups", fam.Groups, rec, false, 40, 0, 2, 0),
+				randCover("groups-rand", tweak(small, groupy), rec, 60, 500, 0),
+			},
+			traces: stdTraces("groups", tweak(medium, groupy), 0, stdOpts)})})
 
 	register(&propDef{id: "C11",
 		projection: "bag of every soft group slice, executions caused by soft parameters",
 		kinds:      []string{"args.soft", "exec.extra"},
-		run: genericRun(stdCovers("soft", tweak(small, func(f *fam.Features) { groupy(f); f.PSoft = 0.6 }), 0),
-			stdTraces("soft", tweak(medium, func(f *fam.Features) { groupy(f); f.PSoft = 0.6 }), 0, stdOpts))})
+		run: genericRun(stagePlan{
+			covers: []coverPlan{
+				structCover("groups", fam.Groups, rec, false, 40, 0, 2, 0),
+				randCover("soft-rand", tweak(small, func(f *fam.Features) { groupy(f); f.PSoft = 0.6 }), rec, 80, 500, 0),
+			},
+			traces: stdTraces("soft", tweak(medium, func(f *fam.Features) { groupy(f); f.PSoft = 0.6 }), 0, stdOpts)})})
 
 	register(&propDef{id: "C12",
 		projection: "provenance received by consumers below decorators and by decorators themselves, decorator execution counters, Decorate verdicts, decorated caches",
@@ -230,7 +345,14 @@ func init() {
 		extra: func(k, d string) bool {
 			return (k == "exec.extra" || k == "exec.missing") && contains(d, ": d")
 		},
-		run: genericRun(stdCovers("dec", tweak(small, decy), 0), stdTraces("dec", tweak(medium, decy), 0, stdOpts))})
+		run: genericRun(stagePlan{
+			covers: []coverPlan{
+				structCover("chain", fam.Chain, rec, false, 100, 0, 2, 0),
+				structCover("shadow", fam.Shadow, rec, false, 40, 0, 2, 0),
+				structCover("groups", fam.Groups, rec, false, 15, 0, 2, 0),
+				randCover("dec-rand", tweak(small, decy), rec, 40, 400, 0),
+			},
+			traces: stdTraces("dec", tweak(medium, decy), 0, stdOpts)})})
 
 	register(&propDef{id: "C13",
 		projection: "public-API classification of every error: RootCause, errors.Is with the execution's sentinel, errors.As(dig.Error), PanicError and its value, IsCycleDetected, identity of the invoked function's error, escaped panics",
@@ -238,51 +360,83 @@ func init() {
 		extra: func(k, d string) bool {
 			return k == "verdict.invoke" && contains(d, "fail", "panic", "invokeerr")
 		},
-		run: genericRun(stdCovers("errors", small, 2), stdTraces("errors", medium, 0.3, []cat.Opts{{Recover: true}, {Recover: false}}))})
+		run: genericRun(stagePlan{
+			covers: []coverPlan{
+				randCover("errors", small, recBoth, 40, 500, 2),
+				structCover("chain", fam.Chain, recBoth, true, 20, 0, 2, 2),
+				structCover("groups", fam.Groups, recBoth, false, 8, 0, 2, 1),
+			},
+			traces: stdTraces("errors", medium, 0.3, recBoth),
+			sig:    true})})
 
 	register(&propDef{id: "C14",
-		projection: "panics escaping any API call, rejected inputs changing state, Visualize / String misbehaving",
-		kinds:      []string{"crash", "viz.misbehaved", "notrace", "processcrash"},
+		projection: "panics escaping any API call, rejected inputs changing state, Visualize / String misbehaving, verdict of the front end on every enumerated signature",
+		kinds:      []string{"crash", "viz.misbehaved", "notrace", "processcrash", "verdict.provide", "verdict.decorate", "info.onreject"},
 		extra: func(k, d string) bool {
 			return contains(d, "foreignpanic")
 		},
-		run: genericRun(stdCovers("badinput", small, 1), stdTraces("badinput", medium, 0.1, allOpts))})
+		run: genericRun(stagePlan{
+			covers: []coverPlan{randCover("badinput", small, allOpts, 60, 400, 1)},
+			traces: stdTraces("badinput", medium, 0.1, allOpts),
+			sig:    true})})
 
 	register(&propDef{id: "C15",
 		projection: "verdicts, executed functions and per-position provenance across equivalent encodings of the same signatures",
-		kinds:      []string{"args", "exec.extra", "exec.missing", "verdict"},
-		run: genericRun(stdCovers("encodings", tweak(small, func(f *fam.Features) { f.PObj = 0.6; f.PMulti = 0.5 }), 0),
-			stdTraces("encodings", tweak(medium, func(f *fam.Features) { f.PObj = 0.6; f.PMulti = 0.5 }), 0, stdOpts))})
+		kinds:      []string{"args", "exec.extra", "exec.missing", "verdict", "info"},
+		run: genericRun(stagePlan{
+			covers: []coverPlan{randCover("encodings", tweak(small, func(f *fam.Features) { f.PObj = 0.6; f.PMulti = 0.5 }), rec, 100, 600, 0)},
+			traces: stdTraces("encodings", tweak(medium, func(f *fam.Features) { f.PObj = 0.6; f.PMulti = 0.5 }), 0, stdOpts),
+			sig:    true})})
 
 	register(&propDef{id: "C16",
 		projection: "verdicts and provenance-by-function across registration orders, scope creation positions and the DeferAcyclicVerification setting",
 		kinds:      []string{"args", "verdict", "exec.extra", "exec.missing"},
-		run: genericRun(stdCovers("orders", withOpts(small, []cat.Opts{{Recover: true}, {Recover: true, Defer: true}}), 0),
-			stdTraces("orders", medium, 0, []cat.Opts{{Recover: true}, {Recover: true, Defer: true}}))})
+		run: genericRun(stagePlan{
+			covers: []coverPlan{
+				randCover("orders", small, deferBoth, 50, 400, 0),
+				structCover("chain", fam.Chain, deferBoth, false, 50, 0, 2, 0),
+				structCover("groups", fam.Groups, deferBoth, false, 10, 0, 2, 0),
+				digraphCover("digraphs-grp", "grp", deferBoth, 60, 800),
+			},
+			traces: stdTraces("orders", medium, 0, deferBoth)})})
 
 	register(&propDef{id: "C17",
 		projection: "executions in a DryRun container (none), verdict classes of every operation",
 		kinds:      []string{"exec.dry", "verdict", "mk"},
-		run: genericRun(stdCovers("dry", withOpts(small, []cat.Opts{{Recover: true, Dry: true}, {Recover: true, Dry: true, Defer: true}}), 0),
-			stdTraces("dry", medium, 0, []cat.Opts{{Recover: true, Dry: true}, {Dry: true}}))})
+		run: genericRun(stagePlan{
+			covers: []coverPlan{
+				randCover("dry", small, dryOpts, 50, 400, 0),
+				structCover("chain", fam.Chain, dryOpts, false, 50, 0, 2, 0),
+				structCover("groups", fam.Groups, dryOpts, false, 10, 0, 2, 0),
+				digraphCover("digraphs-req", "req", dryOpts, 60, 800),
+			},
+			traces: stdTraces("dry", medium, 0, []cat.Opts{{Recover: true, Dry: true}, {Dry: true}, {Dry: true, Defer: true}})})})
 
 	register(&propDef{id: "C18",
 		projection: "ProvideInfo / DecorateInfo / InvokeInfo entries (strings, counts, order), untouched on rejection, constructor ids",
 		kinds:      []string{"info"},
-		run:        genericRun(stdCovers("info", small, 0), stdTraces("info", medium, 0, stdOpts))})
+		run: genericRun(stagePlan{
+			covers: []coverPlan{randCover("info", small, rec, 60, 400, 0)},
+			traces: stdTraces("info", medium, 0, stdOpts),
+			sig:    true})})
 
 	register(&propDef{id: "C19",
 		projection: "parsed DOT structure (clusters, result nodes, edges, dashed, group nodes), failure colouring, CanVisualizeError",
 		kinds:      []string{"viz"},
-		run:        genericRun(stdCovers("viz", small, 1), stdTraces("viz", medium, 0.1, stdOpts))})
+		run: genericRun(stagePlan{
+			covers: []coverPlan{randCover("viz", small, rec, 60, 400, 1)},
+			traces: stdTraces("viz", medium, 0.1, stdOpts)})})
 
 	register(&propDef{id: "C20",
 		projection: "CallbackInfo sequence versus the exec log: one callback per execution of a callback-carrying function, Error class, Runtime, Name",
 		kinds:      []string{"cb.count", "cb.err", "cb.runtime", "cb.order", "cb.name"},
-		run: genericRun(stdCovers("callbacks", tweak(small, func(f *fam.Features) { f.PCb = 0.7 }), 2),
-			stdTraces("callbacks", tweak(medium, func(f *fam.Features) { f.PCb = 0.7 }), 0.25, []cat.Opts{{Recover: true}, {Recover: false}}))})
-
-	_ = time.Second
+		run: genericRun(stagePlan{
+			covers: []coverPlan{
+				randCover("callbacks", tweak(small, func(f *fam.Features) { f.PCb = 0.7 }), recBoth, 50, 500, 2),
+				structCover("chain", fam.Chain, recBoth, true, 20, 0, 2, 2),
+				structCover("groups", fam.Groups, recBoth, true, 8, 0, 2, 1),
+			},
+			traces: stdTraces("callbacks", tweak(medium, func(f *fam.Features) { f.PCb = 0.7 }), 0.25, recBoth)})})
 }
 
 func replaySpecial(def *propDef, f *Finding) int { return 2 }
